@@ -26,7 +26,8 @@ RULE = ('task histories: 0-40 tasks, each ok / failing (Exception or BaseExcepti
 ASSUMPTIONS = ['tasks are shorter than flush\'s own 10 s per-task wait', 'a refused post-close submission may raise any exception type']
 REQUIRE = {'tasks_tracked': 2000, 'flushes_checked': 300, 'flush_with_running_failure': 80, 'sends_checked': 1500,
            'failed_sends': 100, 'unconvertible': 100, 'post_close_submits': 200, 'yield_points': 2000,
-           'submits_during_flush': 30, 'twin_handler_flushes': 40, 'backlog_flushes': 1}
+           'submits_during_flush': 30, 'twin_handler_flushes': 40, 'backlog_flushes': 1,
+           'concurrent_second_flushes': 20}
 
 
 def plan(tier, seed):
@@ -145,6 +146,23 @@ def case_tasks(seed, out, spec):
         lf = late_during.get('future')
         result['late_undone'] = lf is not None and not lf.done()
 
+    # sometimes a second caller flushes while the first flush is still waiting (shutdown from two places): it, too,
+    # may only return once everything accepted has finished
+    second = {}
+    second_thread = None
+    if gated and r.chance(0.4):
+        def do_second_flush():
+            flush_started.wait(10)
+            time.sleep(r.pick([0.0, 0.002, 0.01]))
+            try:
+                handler.flush()
+                second['raised'] = None
+            except BaseException as e:  # noqa
+                second['raised'] = e
+            second['undone'] = [i for i, f in zip(accepted, futures) if not f.done()]
+        second_thread = threading.Thread(target=do_second_flush)
+        second_thread.start()
+
     with inject.LineInjector(lambda f: f.endswith(os.path.join('deep', 'task', '__init__.py')), yld) as inj:
         if r.chance(0.3):
             t = threading.Thread(target=do_flush)
@@ -179,6 +197,12 @@ def case_tasks(seed, out, spec):
     elif result.get('undone'):
         out.violation('flush:returned-early', 'flush() returned while tasks %s were unfinished' % result['undone'],
                       witness, replay)
+    if second_thread is not None:
+        second_thread.join(30)
+        out.count('concurrent_second_flushes')
+        if second.get('undone'):
+            out.violation('flush:returned-early', 'a second flush() called while the first one was waiting returned while '
+                                                  'tasks %s were unfinished' % second['undone'], witness, replay)
     if late_thread is not None:
         late_thread.join(5)
         out.count('submits_during_flush')
